@@ -97,4 +97,5 @@ func checkC01(r *evid.Run) {
 	r.Set("exhaustive", true)
 	r.Set("rule", "every well-formed document of at most MaxLines item lines over the name set (every ordered forest with every pattern of repeated sibling names); non-trivial = at least 3 nodes")
 	traceDocs(r, "C01", traceSpecC01)
+	traceDocs(r, "C01", traceSpecBig)
 }
